@@ -7,6 +7,8 @@ TOL = 1.e-10          # model vs implementation, relative to the flux scale of t
 GAMMAS = [5. / 3., 1.4, 2.0, 4. / 3., 1.1]
 HLLC_BASE = [0, 11, 12, 13, 21, 22, 23, 31, 32, 33, 34, 35, 41, 42, 43, 44]
 SAMPLER_TAGS = [1, 11, 12, 13, 21, 22, 23, 31, 32, 33, 34, 35]
+# 50 + sampling branch of the iterative path (C11's ids 1..10: shock/rarefaction star, state, fan on either side)
+EXACT_TAGS = list(range(51, 61))
 # around the reciprocal-overflow threshold 2^-1024 of std::isinf(1/x)
 SUBNORMALS = [2.0 ** -1024, 2.0 ** -1024 + 2.0 ** -1074, 2.0 ** -1024 - 2.0 ** -1074, 2.0 ** -1025, 2.0 ** -1026,
               2.0 ** -1028, 2.0 ** -1030, 2.0 ** -1023, 2.0 ** -1022, 3 * 2.0 ** -1024, 3 * 2.0 ** -1026, 5e-324]
@@ -327,14 +329,10 @@ def cmp_lines(impl, model, op):
             return False
         if not all(close(a[2 + i], m[2 + i], scl[i]) for i in range(5)):
             return False
-        if m[8] == "none":
-            return True
         if len(m) != 14 or a[8] != m[8]:
             return False
         return all(close(a[9 + i], m[9 + i], scl[i]) for i in range(5))
     if a[0] == "X":
-        if m[1] == "none":
-            return True
         if a[1] != m[1] or len(a) != 5 or len(m) != 5:
             return False
         w = [vlib.bits2f(x) for x in op.split()[1:]]
@@ -351,14 +349,7 @@ def cmp_lines(impl, model, op):
 
 
 def bit_exact(impl, model):
-    m = vlib.strip_branch(model)
-    if impl == m:
-        return True
-    if m.startswith("F ") and m.endswith(" X none"):
-        return impl.split(" X ")[0] == m.split(" X ")[0]
-    if m == "X none":
-        return True
-    return False
+    return impl == vlib.strip_branch(model)
 
 
 DBL_MIN = 2.0 ** -1022
@@ -432,12 +423,14 @@ def run(ctx):
         "hllc_mirror carries the hypothesis h0: on the HLLC path S* != 0 or S_L < 0 < S_R; it excludes exactly the set on which the code is NOT antisymmetric (S* = 0 exactly with unordered wave-speed estimates; theorem hllc_mirror_fails_for_fast_symmetric_collision; recorded finding hllc:mirror-at-sstar-zero-unordered-speeds)",
         "hllc_textbook is stated for ordered wave-speed estimates S_L <= S* <= S_R (as in the property); the estimates themselves (PVRS pressure) are part of the model and can be disordered for extreme density/pressure contrasts",
         "Galilean covariance of the implementation is checked relative to the largest velocity involved (eps*(|u|+|vface|+|w|) limits what doubles can represent); subnormal densities/pressures (kind d) are compared with the model but get no oracle",
-        "the iterative (non-vacuum) path of ExactRiemannSolver::solve is not modelled here (C11); it only receives the symmetry oracles at tolerance 1e-6",
+        "the complete ExactRiemannSolver::solve_for_flux is modelled (Model/ExactFlux.lean around C11's ExactRiemann.solve, read-only import) and runs in the correspondence; its Newton loop has no counter in the C++: the model bounds it by a fuel (1e5, never exhausted in the runs); the exact-solver theorems hold for every fuel, i.e. independently of convergence",
+        "exact_mirror / exact_flux_mirror_partial exclude sampling speeds exactly on the contact u*, on a fan tail next to the star region, or on both vacuum fronts (MirrorTieFree): at the contact the solution is two-valued; exact_mirror_no_exchange_partial assumes that the star region is sampled (hstar), measured on every run (evidence exact_mirror_star_region)",
+        "hllc_textbook's premise S_L <= S* <= S_R is measured on every run (evidence hllc_ordered_wave_speeds)",
     ]
     ok = ctx.obligations("CMacVerif.Props.C05", ["drv_c05"])
     h = vlib.build_harness("c05")
-    nflux = ctx.budget(40000, 2400000)
-    nsamp = ctx.budget(20000, 1200000)
+    nflux = ctx.budget(28000, 2000000)
+    nsamp = ctx.budget(14000, 1000000)
     ctx.cov["rule"] = ("flux cases: rho, P log-uniform over 2/6/20 decades plus exact 0 and subnormals around 2^-1024; normal velocities sub/supersonic, colliding, "
                        "diverging past vacuum generation; tangential velocities; axis and random unit normals; face velocities; identical and mirror-image states; "
                        "exact ties (sonic point, fan tail exact and within a few ulp, vacuum-generation threshold, pstar = P, gamma = 1); 1D cases: the private samplers and solve() at random x/t. "
@@ -448,6 +441,8 @@ def run(ctx):
     chunk = 150000
     exact = total = 0
     gen_hist = {}
+    ord_hist = {}     # generator class -> [HLLC-path cases, of which with ordered wave-speed estimates]
+    mstar = [0, 0]    # mirror-image ops (kind m): [total, exact solver sampled its star region / vacuum]
     todo = [("corpus", None)] + [("flux", min(chunk, nflux - k)) for k in range(0, nflux, chunk)] \
         + [("samp", min(chunk, nsamp - k)) for k in range(0, nsamp, chunk)]
     for what, cnt in todo:
@@ -476,6 +471,15 @@ def run(ctx):
             if br.startswith("h"):
                 hb = int(br[1:].split("x")[0])
                 nontriv = hb % 100 not in (41, 43) or hb >= 100
+                if op.startswith("m "):
+                    xb = int(br[1:].split("x")[1])
+                    mstar[0] += 1
+                    # 51/54/56/60: star region behind a right/left shock or rarefaction; < 50: vacuum exits
+                    mstar[1] += 1 if (xb in (51, 54, 56, 60) or xb < 50) else 0
+                if hb % 100 >= 41:
+                    o = ord_hist.setdefault(classes[i], [0, 0])
+                    o[0] += 1
+                    o[1] += 0 if (hb // 100) & 8 else 1
             ctx.distinct(hash(op), nontrivial=nontriv)
         ctx.count(len(ops))
         total += len(ops)
@@ -484,6 +488,11 @@ def run(ctx):
             ctx.sample({"op": ops[k], "impl": impl[k] if k < len(impl) else None, "class": classes[k]})
     ctx.cov["bit_exact_rate"] = round(exact / max(1, total), 6)
     ctx.cov["generator_classes"] = gen_hist
+    # premise of hllc_textbook (S_L <= S* <= S_R), measured on the model's bit-identical run
+    nh = sum(v[0] for v in ord_hist.values())
+    no = sum(v[1] for v in ord_hist.values())
+    ctx.cov["hllc_ordered_wave_speeds"] = {"hllc_path_cases": nh, "ordered": no, "fraction": round(no / max(1, nh), 6),
+                                           "unordered_by_generator_class": {k: v[0] - v[1] for k, v in sorted(ord_hist.items()) if v[0] - v[1]}}
     # coverage gate: every branch of the model must have been taken
     seen_h, seen_x, seen_s = set(), set(), set()
     flags = set()
@@ -500,11 +509,15 @@ def run(ctx):
             a, b = k[1:].split("h")
             seen_s.add(int(a))
             seen_s.add(int(b))
-    missing = [b for b in HLLC_BASE if b not in seen_h] + ["x%d" % t for t in SAMPLER_TAGS if t not in seen_x] \
+    missing = [b for b in HLLC_BASE if b not in seen_h] + ["x%d" % t for t in SAMPLER_TAGS + EXACT_TAGS if t not in seen_x] \
         + ["s%d" % t for t in SAMPLER_TAGS[1:] if t not in seen_s]
-    for need in (1, 2, 3, 4):   # left shock, right shock, both, clamped pressure estimate
-        if not any((f & need) == need if need != 4 else f >= 4 for f in flags):
+    for need in (1, 2, 3, 4, 8):   # left shock, right shock, both, clamped pressure estimate, unordered speeds
+        if not any((f & need) == need for f in flags):
             missing.append("qflags%d" % need)
+    # premise hstar of exact_mirror_no_exchange_partial, measured on the model's bit-identical run
+    ctx.cov["exact_mirror_star_region"] = {"mirror_ops": mstar[0], "star_region_or_vacuum_sampled": mstar[1]}
+    if mstar[1] != mstar[0]:
+        ctx.notes.append("premise hstar of exact_mirror_no_exchange_partial failed on %d of %d mirror-image cases" % (mstar[0] - mstar[1], mstar[0]))
     ctx.cov["branches_never_taken"] = missing
     if missing:
         ctx.broken_obligation("coverage gate: model branches never taken by the generated cases: %s" % missing)
@@ -526,9 +539,14 @@ MANIFEST = dict(
           "below 1.5 sound speeds exchange no mass/energy (mirror_no_exchange), mirror antisymmetry of all five components "
           "(hllc_mirror: for S* != 0 or S_L < 0 < S_R; on the excluded set the code is proved NOT antisymmetric, "
           "hllc_mirror_fails_for_fast_symmetric_collision). The same definitions compiled at Float agree bit for bit "
-          "with both real solver classes on identical doubles; the symmetry relations are also evaluated on the implementation."),
+          "with both real solver classes on identical doubles; the symmetry relations are also evaluated on the implementation. "
+          "Exact solver (complete solve_for_flux incl. the Newton/Brent path, model ExactFlux around C11's solve): exact_galilean and "
+          "exact_flux_galilean (no hypotheses), exact_mirror (off the ties), exact_identical, vacuum_same_as_exact_full, "
+          "exact_flux_mirror_partial, exact_mirror_no_exchange_partial; all for every fuel of the root finder."),
     note=("Trusted: Lean kernel + 3 standard axioms; hand model (tied by bit-exact correspondence incl. the private samplers and the 1/x "
           "overflow tests); exact-arithmetic theorems say nothing about rounding/overflow/NaN (searched by oracles; the NaN at a fan tail they found was fixed by 52f78a3); DBL_MIN guards = 0 and gamma clamp as in the constructors; hllc_mirror needs hypothesis h0 "
           "(counterexample theorem + recorded finding hllc:mirror-at-sstar-zero-unordered-speeds); the wave-speed estimates are not "
-          "shown to be ordered (they are not, for extreme contrasts); iterative path of the exact solver belongs to C11."),
+          "shown to be ordered (they are not, for extreme contrasts); iterative path of the exact solver: model imported read-only "
+          "from C11; exact mirror statements exclude the contact/fan-tail ties, the exact no-exchange statement assumes the star region is "
+          "sampled (measured each run); exact theorems say nothing about the accuracy of P* (C11)."),
     technique="Lean 4 proof over exact real arithmetic (one generic definition, instantiated at Float and R) + differential correspondence on identical doubles")
